@@ -5,6 +5,19 @@ ROOT = os.path.dirname(os.path.dirname(os.path.abspath(__file__)))
 ids = [json.loads(l)["id"] for l in open(os.path.join(ROOT, "properties.jsonl"))]
 
 CLAIMED = {
+ "C05": dict(
+   text="Lean 4 theorems over Model/Authorize.lean (response_type normalisation, grant lookup over RESPONSE_TYPES regenerated from the grant classes, client "
+        "identification per grant, validate_authorization_redirect_uri, response-type / scope / PKCE / nonce / openid / prompt checks in code order, "
+        "OAuth2Error redirect rule, create_response_mode_response incl. form_post, both entry points): redirect_only_to_registered and "
+        "consent_redirect_only_to_registered (every 302 / form_post target is a URI registered by the identified existing client: the requested one or the "
+        "default — for ALL requests, client tables, grant registrations, decisions), state_echoed_once_unchanged, credential_only_if_approved. "
+        "registered_query_preserved is C15's add_params_preserves_existing. Correspondence: mostly-valid + mutated + fully random request streams (GET consent and "
+        "POST decision, parameter placement query/form/split, duplicated parameters) against the real core provider with all five authorization grants; "
+        "direct oracle on Location / form action.",
+   note="Trusted: Lean kernel; reference integrator client semantics (exact URI membership, first URI default); URL rendering (urlparse/urlunparse) is exercised and "
+        "canonicalised, not modelled; Flask/Django integrations are not driven; hostile characters that crash the error constructor belong to C20.",
+   technique="Lean 4 proof over hand-written endpoint model + regenerated grant constants + differential correspondence + direct redirect oracle",
+   design="§4 C05"),
  "C13": dict(
    text="Lean 4 theorems over Model/IdToken.lean (IDToken / ImplicitIDToken / HybridIDToken.validate in code order, generate_id_token payload, create_half_hash): "
         "nonce_mismatch_rejected, nonce_missing_rejected, client_mismatch_rejected, issuer_mismatch_rejected, expired_rejected, c_hash_missing_rejected "
